@@ -56,6 +56,15 @@ def _target(
     Non-standard `#` and `~` pointer tokens are not recognized here, and object
     member names are always strings, even if they look like array indices.
     """
+    if isinstance(data, str):
+        # A document that is a JSON string value (the root was replaced by a
+        # string), not JSON text to be parsed again.
+        if pointer.parts:
+            raise JSONPointerTypeError(
+                f"found {data.__class__} while resolving {pointer}"
+            )
+        return (None, "", data)
+
     parent, obj = pointer.resolve_parent(data)
     if parent is None:
         return (None, "", obj)
